@@ -117,7 +117,7 @@ func init() {
 func init() {
 	for _, id := range []string{"C02", "C03", "C09", "C18", "C20"} {
 		p := props[id]
-		p.Real = append(p.Real, "a companion worker (harness/cmd/conf) built with the Go race detector from the UNREWRITTEN tree: two or three simulated threads, each with instances and arguments of its own, interleaved at operation granularity by the Engine-A scheduler")
+		p.Real = append(p.Real, "a companion worker (harness/cmd/conf) built with the Go race detector from the UNREWRITTEN tree (C09, C20: with crypto/rand alone redirected to the simulated entropy source, so that it can fail): two or three simulated threads, each with instances and arguments of its own - and, for randz, sharing the package-level defaults the library makes goroutine-safe - interleaved at operation granularity by the Engine-A scheduler")
 		p.Rule += "; the companion worker's runs (threads with private instances) are counted with the others"
 	}
 	for id, p := range props {
@@ -315,6 +315,13 @@ func prepare(p *propCfg, repo string) (string, error) {
 		}
 		if out, err := run("", nil, "rsync", "-a", har+"/", ph+"/"); err != nil {
 			return "", fmt.Errorf("copy harness (plain): %v %s", err, out)
+		}
+		if p.ID == "C09" || p.ID == "C20" {
+			// the one seam the companion keeps: the entropy source (so that it can fail); no
+			// scheduling points, no other shim
+			if out, err := run("", goEnv(), filepath.Join(verifDir, "bin", "rewrite"), "-root", pg, "-pkgs", p.Pkgs, "-imports", "crypto/rand=scrand"); err != nil {
+				return "", fmt.Errorf("rewrite (plain): %v\n%s", err, out)
+			}
 		}
 		cb := filepath.Join(base, "conf_worker")
 		if out, err := run(ph, goEnv(), "go", "build", "-race", "-o", cb, "./cmd/conf"); err != nil {
